@@ -58,6 +58,10 @@ def _module(prop):
 
 def child_main(args):
     mod = _module(args.id)
+    # record the import-time state of the package before anything runs
+    # (mc/modstate.py): forked workers inherit the record
+    from mc import modstate
+    modstate.reset()
     hs = int(os.environ.get('PYTHONHASHSEED', '0'))
     ctx = Ctx(args.id, args.tier, args.seed, hs, args.budget)
     try:
